@@ -342,7 +342,8 @@ func loadLocation(tz string) *time.Location {
 
 func (tv *Timestamp) Equals(o interface{}, g px.Guard) bool {
 	if ov, ok := o.(*Timestamp); ok {
-		return tv.Int() == ov.Int()
+		// The same instant, nanoseconds included (Int() is whole seconds; the hash key has the nanoseconds too)
+		return (*time.Time)(tv).Equal(*(*time.Time)(ov))
 	}
 	return false
 }
